@@ -377,6 +377,73 @@ def unmarshalTimestamp (s : Str) : Option (Int × Int) :=
   else if tooManyFracDigits s then none
   else some (secs, (nsec : Int))
 
+/-! ### The Timestamp grammar (specification, not executed)
+
+RFC 3339 `date-time` as the Timestamp documentation quotes it
+(`{year}-{month}-{day}T{hour}:{min}:{sec}[.{frac_sec}]Z`, or a numeric offset instead of `Z`), with upper-case
+`T`/`Z` and without the leap second, together with the three things the code accepts beyond it, so that the
+set of accepted strings can be stated exactly: a one-digit hour (`hour1`), ',' as the fraction separator
+(`frac = some (true, _)`, then any number of digits), an offset hour of 24 / minute of 60. -/
+
+structure TsParts where
+  year : Nat
+  month : Nat
+  day : Nat
+  hour : Nat
+  min : Nat
+  sec : Nat
+  /-- the hour is written with one digit -/
+  hour1 : Bool
+  /-- fraction: (separator is ',', digits) -/
+  frac : Option (Bool × Str)
+  /-- `none` = "Z"; `some (minus, hh, mm)` = numeric offset -/
+  zone : Option (Bool × Nat × Nat)
+
+def TsParts.hourChars (p : TsParts) : Str := if p.hour1 then [digitChar p.hour] else padDigits 2 p.hour
+
+def tsFracChars : Option (Bool × Str) → Str
+  | none => []
+  | some (comma, ds) => (if comma then ',' else '.') :: ds
+
+def tsZoneChars : Option (Bool × Nat × Nat) → Str
+  | none => ['Z']
+  | some (neg, hh, mm) => (if neg then '-' else '+') :: (padDigits 2 hh ++ ':' :: padDigits 2 mm)
+
+def TsParts.render (p : TsParts) : Str :=
+  padDigits 4 p.year ++ '-' :: (padDigits 2 p.month ++ '-' :: (padDigits 2 p.day ++ 'T' :: (p.hourChars ++ ':' ::
+    (padDigits 2 p.min ++ ':' :: (padDigits 2 p.sec ++ (tsFracChars p.frac ++ tsZoneChars p.zone))))))
+
+/-- offset east of UTC in seconds -/
+def tsOffset : Option (Bool × Nat × Nat) → Int
+  | none => 0
+  | some (neg, hh, mm) => if neg then -(((hh * 60 + mm) * 60 : Nat) : Int) else (((hh * 60 + mm) * 60 : Nat) : Int)
+
+def tsNanos : Option (Bool × Str) → Nat
+  | none => 0
+  | some (_, ds) => nanosOfFrac ds
+
+/-- the instant the literal denotes: (seconds since 1970-01-01T00:00:00Z, nanoseconds; digits after the
+ninth do not count) -/
+def TsParts.value (p : TsParts) : Int × Int :=
+  (daysFromCivil p.year p.month p.day * 86400 + ((p.hour * 3600 + p.min * 60 + p.sec : Nat) : Int) - tsOffset p.zone,
+   (tsNanos p.frac : Int))
+
+/-- field ranges common to RFC 3339 and to what the code accepts -/
+def TsParts.Fields (p : TsParts) : Prop :=
+  p.year < 10000 ∧ 1 ≤ p.month ∧ p.month ≤ 12 ∧ 1 ≤ p.day ∧ (p.day : Int) ≤ daysIn p.year p.month ∧
+  p.hour < 24 ∧ (p.hour1 = true → p.hour < 10) ∧ p.min < 60 ∧ p.sec < 60 ∧
+  (∀ comma ds, p.frac = some (comma, ds) → allDigits ds ∧ ds ≠ []) ∧
+  (∀ neg hh mm, p.zone = some (neg, hh, mm) → hh ≤ 24 ∧ mm ≤ 60)
+
+/-- what `unmarshalTimestamp` accepts: with '.', at most nine fraction digits -/
+def TsParts.Accepted (p : TsParts) : Prop :=
+  p.Fields ∧ ∀ ds, p.frac = some (false, ds) → ds.length ≤ 9
+
+/-- RFC 3339 with at most nine fraction digits: two-digit hour, '.', offset 00..23 ':' 00..59 -/
+def TsParts.Rfc3339 (p : TsParts) : Prop :=
+  p.Fields ∧ p.hour1 = false ∧ (∀ comma ds, p.frac = some (comma, ds) → comma = false ∧ ds.length ≤ 9) ∧
+  (∀ neg hh mm, p.zone = some (neg, hh, mm) → hh ≤ 23 ∧ mm ≤ 59)
+
 /-! ## FieldMask
 
 Private copies of `strs.JSONCamelCase`, `strs.JSONSnakeCase` (internal/strs/strings.go) and
